@@ -377,7 +377,7 @@ func newFace(pool []C3, rng *rand.Rand) *model3d.Triangle {
 }
 
 func meshHistories3(r *vlib.Run) {
-	n := r.N(1500, 30000)
+	n := r.N(6000, 60000)
 	r.Section("mesh3d", n, vlib.SectionOpts{}, func(c *vlib.Case) {
 		rng := c.Rng
 		pool, kind := pool3(rng)
@@ -549,7 +549,7 @@ func mapTris(ts []vlib.Tri, f func(C3) C3) []vlib.Tri {
 }
 
 func derivedLaws3(r *vlib.Run) {
-	n := r.N(2000, 40000)
+	n := r.N(6000, 60000)
 	r.Section("derived3d", n, vlib.SectionOpts{}, func(c *vlib.Case) {
 		rng := c.Rng
 		mesh, mod, pool, kind := randomMesh3(rng)
